@@ -861,10 +861,15 @@ class PathEngine:
                             env2[("$t", id(node.info["cond"]))] = br
                         go(lab, env=env2)
                         continue
+                    implied = False
                     if atom in lits:
                         if lits[atom] != want:
                             continue
                         lits2 = lits
+                        # the path already decided this very test the same way (`if x is None: return`; `assert x is not
+                        # None`): nothing new is learnt, no second condition is recorded - unless it is a loop test,
+                        # whose repetition marks an iteration
+                        implied = node.info.get("loop_test_of") is None and bool(node.info.get("assert"))
                     else:
                         lits2 = dict(lits)
                         lits2[atom] = want
@@ -873,7 +878,7 @@ class PathEngine:
                         drop_temps(env2)
                     else:
                         env2[("$t", id(node.info["cond"]))] = br
-                    go(lab, env=env2, items=items + [("cond", atom, want, node, cfg, self._frames, br)], lits=lits2)
+                    go(lab, env=env2, items=items if implied else items + [("cond", atom, want, node, cfg, self._frames, br)], lits=lits2)
             elif k == "iter" and self._literal_iter(node, env, store, cfg, visits.get(nid, 0)) is not None:
                 # a loop over a tuple display local to the function (a decision table written as data): unrolled exactly
                 elems = self._literal_iter(node, env, store, cfg, visits.get(nid, 0))
@@ -939,6 +944,20 @@ class PathEngine:
         if raises is None and env0 is None:
             self._cache[ck] = out
         return out
+
+    LOG_METHODS = ("debug", "info", "warning", "error", "exception", "critical", "log", "isEnabledFor")
+
+    def _is_logging(self, call: ast.Call, name: str, fi: FuncInfo) -> bool:
+        """`logging.getLogger(...)`, `logging.getLogger(...).debug(...)`, `logging.debug(...)`, or `<LOGGER>.debug(...)`
+        where LOGGER is a module-level name bound once to `logging.getLogger(...)`"""
+        if name.startswith("logging."):
+            return True
+        f = call.func
+        if isinstance(f, ast.Attribute) and f.attr in self.LOG_METHODS and isinstance(f.value, ast.Name):
+            k, p = self.prog.lookup_name(f.value.id, fi, fi.module)
+            if k == "assign" and isinstance(p[1], ast.Call) and ast.unparse(p[1].func) in ("logging.getLogger", "getLogger"):
+                return True
+        return False
 
     def _pure_sym(self, e: ast.expr, env: dict, store: dict, cfg: CFG) -> Any:
         """symbolic value of an expression made of names, constants, comparisons, boolean operators and calls of pure
@@ -1128,6 +1147,9 @@ class PathEngine:
                 pure, fname = True, "new " + short
             elif name in PURE_LIB:
                 pure, fname = True, name
+            elif self._is_logging(call, name, fi):
+                # diagnostics through the standard logging module are not an effect any property speaks about
+                pure, fname = True, "logging"
             elif isinstance(f, ast.Attribute) and f.attr in PURE_METHODS:
                 pure, fname = True, "." + f.attr
             elif isinstance(f, ast.Attribute) and f.attr in MUTATORS:
